@@ -93,6 +93,8 @@ pub trait Flavour: 'static {
     fn new_node(k: Key, v: NVal) -> Self::Node;
     fn key(n: &Self::Node) -> Key;
     fn prio(n: &Self::Node) -> i32;
+    /// change the node's value in place (interior mutability, as in the crate's Dijkstra examples)
+    fn set_prio(n: &Self::Node, v: i32);
     fn prio_deref(n: &Self::Node) -> i32;
     /// address of the node's value: identifies the allocation
     fn addr(n: &Self::Node) -> usize;
@@ -371,8 +373,9 @@ macro_rules! common_items {
 
         fn new_node(k: Key, v: NVal) -> Self::Node { gdsl::$m::Node::new(k, v) }
         fn key(n: &Self::Node) -> Key { *n.key() }
-        fn prio(n: &Self::Node) -> i32 { n.value().p }
-        fn prio_deref(n: &Self::Node) -> i32 { n.p }
+        fn prio(n: &Self::Node) -> i32 { n.value().p() }
+        fn set_prio(n: &Self::Node, v: i32) { n.value().set_p(v) }
+        fn prio_deref(n: &Self::Node) -> i32 { n.p() }
         fn addr(n: &Self::Node) -> usize { n.value() as *const NVal as usize }
         fn connect(a: &Self::Node, b: &Self::Node, e: EV) { a.connect(b, e) }
         fn try_connect(a: &Self::Node, b: &Self::Node, e: EV) -> Result<(), ErrKind> { a.try_connect(b, e).map_err(ek) }
